@@ -126,7 +126,7 @@ impl Server for Running {
         for _attempt in 0..8 {
             let port = free_port();
             let (mtx, mrx) = std::sync::mpsc::channel::<Event>();
-            let app = build(ops, tag).with_monitor(MonitorConfig::new(mtx).with_subscription_to(EventType::ConnectionSuccess));
+            let app = build(ops, tag).with_monitor(monitor_for(mtx));
             let addr = format!("127.0.0.1:{}", port);
             let (tx, rx) = oneshot::channel::<()>();
             let handle = thread::spawn(move || {
@@ -145,9 +145,12 @@ impl Server for Running {
             let deadline = Instant::now() + Duration::from_secs(15);
             let sa: SocketAddr = format!("127.0.0.1:{}", port).parse().unwrap();
             let mut ok = false;
-            // Ready means: OUR app reported (MonitorConfig, ConnectionSuccess) that it accepted OUR probe connection.
-            // A successful connect alone proves nothing: when the port was taken between free_port() and the bind
-            // inside App::run, the connect reaches somebody else's listener while our thread has not failed yet.
+            // Ready means: OUR app listens on the port. A successful connect alone proves nothing (when the port was
+            // taken between free_port() and the bind inside App::run, the connect reaches somebody else's listener while
+            // our thread has not failed yet). Confirmation, whichever comes first:
+            //  - the app reports (MonitorConfig, ConnectionSuccess) that it accepted OUR probe connection, or
+            //  - the listening socket on the port belongs to this process (/proc) - monitor events are not part of the
+            //    property, an app that reports none must still be testable; ports are unique inside the process.
             'wait: while Instant::now() < deadline {
                 if handle.is_finished() {
                     break; // bind failed (port taken in between): try another port
@@ -155,7 +158,9 @@ impl Server for Running {
                 match TcpStream::connect_timeout(&sa, Duration::from_millis(500)) {
                     Ok(probe) => {
                         let me = probe.local_addr().ok();
+                        let quiet = common::NO_EVENT_STARTS.load(std::sync::atomic::Ordering::Relaxed) >= 3;
                         let until = Instant::now() + Duration::from_secs(5);
+                        let mut polls = 0;
                         while Instant::now() < until {
                             match mrx.recv_timeout(Duration::from_millis(20)) {
                                 Ok(ev) => {
@@ -166,6 +171,14 @@ impl Server for Running {
                                 }
                                 Err(_) => {
                                     if handle.is_finished() {
+                                        break 'wait;
+                                    }
+                                    polls += 1;
+                                    // no event (yet): after 0.5 s (at once, when this build has shown that it sends none)
+                                    // look the listener up instead
+                                    if (quiet || polls >= 25) && polls % 5 == 0 && common::listener_is_ours(port) {
+                                        common::NO_EVENT_STARTS.fetch_add(1, std::sync::atomic::Ordering::Relaxed);
+                                        ok = true;
                                         break 'wait;
                                     }
                                 }
@@ -181,6 +194,7 @@ impl Server for Running {
                 return Ok(Running { port, tx, handle });
             }
             drop(tx);
+            common::release_port(port);
         }
         Err("could not start the app on a loopback port".into())
     }
@@ -197,10 +211,20 @@ impl Server for Running {
         }
         if self.handle.is_finished() {
             let _ = self.handle.join();
+            common::release_port(self.port);
             true
         } else {
             false
         }
+    }
+}
+
+/// ROUTING_NO_MONITOR=1 (self-test of the harness): subscribe to nothing, as if the app reported no events.
+fn monitor_for(mtx: std::sync::mpsc::Sender<Event>) -> MonitorConfig {
+    if std::env::var("ROUTING_NO_MONITOR").is_ok() {
+        MonitorConfig::new(mtx)
+    } else {
+        MonitorConfig::new(mtx).with_subscription_to(EventType::ConnectionSuccess)
     }
 }
 
